@@ -63,6 +63,21 @@ CLAIMED = {
         note="floats modelled as reals; one (cos,sin) pair per distinct phase; round(6) is the identity in the symbolic run "
              "(2e-6 tolerance in replays); box concrete; Q<=4 vectors, N<=7.",
         ref="DESIGN.md C04"),
+    "C13": dict(
+        text="Bounded symbolic model checking of conditional_gr (bool/float/complex/vector/tensor) and conditional_sq "
+             "(bool/float/vector): weighted histogram / Fourier-sum definitions with the documented normalisation decided for "
+             "all real positions and field values (N=3), plus the reductions to g_aa / S_aa (through the gr/sq classes in the "
+             "same path), A=1 -> totals, vector = sum of components, gA_norm.",
+        note="floats modelled as reals; histogram by documented semantics; one (cos,sin) pair per phase; round(8) identity; "
+             "empty selections and constant A (0/0) excluded by assumption.",
+        ref="DESIGN.md C13"),
+    "C14": dict(
+        text="Bounded symbolic model checking of time_correlation: scalar/vector/tensor series, real and complex, all values "
+             "symbolic, even / uneven / single-frame timestep patterns; every lag decided equal to the origin-averaged "
+             "normalised autocorrelation, time axis and C(0)=1.",
+        note="floats modelled as reals; T<=3 (quick) / 5 (thorough), N<=2/3; timesteps concrete, dt symbolic; lag-zero norm "
+             "assumed non-zero.",
+        ref="DESIGN.md C14"),
 }
 
 NOT_APPLICABLE = {
